@@ -232,7 +232,11 @@ pub async fn step(w: &mut World, l: &[Tok]) -> Vec<Vec<Tok>> {
             start = SystemTime::now();
         }
     }
-    let out = step_inner(w, l, start).await;
+    // a panicking operation is reported as [-77]; the history goes on (the broker must keep serving)
+    let out = match std::panic::AssertUnwindSafe(step_inner(w, l, start)).catch_unwind().await {
+        Ok(o) => o,
+        Err(_) => vec![vec![-77]],
+    };
     let end = SystemTime::now();
     w.windows.push((start, end));
     // make operation windows disjoint: the clock must have advanced before the next operation starts
